@@ -103,6 +103,33 @@ impl Payload for Rich {
     }
 }
 
+/// a zero-sized payload (all nodes share "the same" value; Vec<Node<Zst>> still has per-node storage)
+#[derive(Debug, Clone, PartialEq)]
+pub struct Zst;
+impl Payload for Zst {
+    fn make(_tok: u32) -> Self {
+        Zst
+    }
+    fn tok(&self) -> u32 {
+        0
+    }
+}
+
+/// a large payload (a node is several cache lines; moves of nodes inside the Vec copy a lot)
+#[derive(Debug, Clone, PartialEq)]
+pub struct Large(pub [u64; 40]);
+impl Payload for Large {
+    fn make(tok: u32) -> Self {
+        let mut a = [tok as u64; 40];
+        a[39] = !(tok as u64);
+        Large(a)
+    }
+    fn tok(&self) -> u32 {
+        // every word must still carry the token
+        if self.0[..39].iter().all(|w| *w == self.0[0]) && self.0[39] == !self.0[0] { self.0[0] as u32 } else { u32::MAX }
+    }
+}
+
 /// Option payloads: `None` serialises like an absent value
 impl Payload for Option<u32> {
     fn make(tok: u32) -> Self {
